@@ -17,9 +17,11 @@ for f in sorted(glob.glob(os.path.join(VERIF, "seeded", "*", "meta.json"))):
     cls = re.search(r"class=(\S+)", fv)
     op = re.search(r"op=(\S+)", fv)
     tier = "thorough" if "thorough" in c.get("cmd", "") else "quick"
-    wave = {"a": 1, "b": 2, "c": 2 if m["id"].startswith("c01c") else 3, "d": 3}[m["id"][3]]
+    wave = {"a": 1, "b": 2, "c": 2 if m["id"].startswith("c01c") else 3, "d": 3, "e": 4}[m["id"][3]]
     if m["id"].startswith("c01b"):
         wave = 1
+    if m["id"][:4] in ("c03d", "c07d", "c10d", "c11d"):
+        wave = 4
     b = m.get("check_before_strengthening")
     rows.append((m["id"], m["property"], wave, title, (op.group(1) if op else "-"),
                  (cls.group(1) if cls else "result_varies_with_numba_threads"),
